@@ -119,9 +119,11 @@ def OutlinesTransparent : Prop :=
   ∀ s1 s2 : State, Good s1 → Good s2 → (∀ k, abs s1 k = abs s2 k) →
     ∀ n, n ∈ glyphsWithOutlines s1 ↔ n ∈ glyphsWithOutlines s2
 
-/-- It holds where the two outline criteria agree on every glyph … -/
-theorem glyphsWithOutlines_exact_partial (s : State) (h : Good s) (hc : Coherent (abs s)) (n : String) :
-    n ∈ glyphsWithOutlines s ↔ ∃ r, abs s n = some r ∧ r.outlineLoaded = true := by
+/-- `glyphsWithOutlines`: exactly the glyphs whose content has a point that ends a segment — the loaded path and
+the fast GLIF scan apply the same test (`_hasOutlineData` / `_fetchHasOutlineData`; they used to differ:
+finding F33, repaired in /repo) -/
+theorem glyphsWithOutlines_exact (s : State) (h : Good s) (n : String) :
+    n ∈ glyphsWithOutlines s ↔ ∃ r, abs s n = some r ∧ r.outlineFast = true := by
   unfold glyphsWithOutlines
   simp only [List.mem_append, List.mem_map, List.mem_filter, decide_eq_true_eq]
   constructor
@@ -131,7 +133,7 @@ theorem glyphsWithOutlines_exact_partial (s : State) (h : Good s) (hc : Coherent
     · have hnl' : AL.get? s.loaded k = none := (AL.contains_false_iff _ _).mp (by simpa [isLoaded] using hnl)
       have hab : abs s k = some v := by
         rw [abs_of_not_loaded hnl']; simp only at hs; simp [hs, AL.get?_of_mem_nodup h.wf.diskKeys hp]
-      exact ⟨v, hab, by rw [hc k v hab]; exact ho⟩
+      exact ⟨v, hab, ho⟩
   · rintro ⟨r, hr, ho⟩
     cases hl : AL.get? s.loaded n with
     | some p =>
@@ -142,26 +144,22 @@ theorem glyphsWithOutlines_exact_partial (s : State) (h : Good s) (hc : Coherent
       intro hs; rw [h.wf.schedNotLoaded n hs] at hl; simp at hl
     | none =>
       right
-      have hr0 := hr
       rw [abs_of_not_loaded hl] at hr
       by_cases hs : n ∈ s.sched
       · simp [hs] at hr
       · simp only [hs, if_false] at hr
-        refine ⟨(n, r), ⟨AL.mem_of_get? hr, by simp [isLoaded, AL.contains, hl], hs, ?_⟩, rfl⟩
-        rw [← hc n r hr0]; exact ho
+        exact ⟨(n, r), ⟨AL.mem_of_get? hr, by simp [isLoaded, AL.contains, hl], hs, ho⟩, rfl⟩
 
-/-- … and fails otherwise (finding F33): a glyph whose contours hold only move/off-curve points
-is listed once loaded, not before. -/
+/-- the full statement: the answer depends on the abstract content only, not on what has been read -/
+theorem glyphsWithOutlines_transparent : OutlinesTransparent := by
+  intro s1 s2 h1 h2 hab n
+  rw [glyphsWithOutlines_exact s1 h1, glyphsWithOutlines_exact s2 h2, hab n]
+
+/-- the former F33 witness (a glyph whose contours hold only move / off-curve points: `len(glyph) > 0`, no
+segment): listed neither before nor after it is read -/
 def f33Disk : List (String × GRec) := [("A", { outlineLoaded := true, outlineFast := false })]
-
-theorem glyphsWithOutlines_violated : ¬ OutlinesTransparent := by
-  intro h
-  have hg : Good (opened f33Disk) := (opened_good f33Disk (by decide) (by decide)).1
-  have h2 := op_commutes (opened f33Disk) (.get "A") hg trivial
-  have := (h (opened f33Disk) (stepTotal (opened f33Disk) (.get "A")) hg h2.1
-    (fun k => by rw [h2.2 k]; rfl) "A").mpr (by decide)
-  revert this
-  decide
+example : glyphsWithOutlines (opened f33Disk) = [] := by decide
+example : glyphsWithOutlines (stepTotal (opened f33Disk) (.get "A")) = [] := by decide
 
 /-! ### the layer-level core of C01/C06: what an in-place save writes -/
 
